@@ -2,7 +2,6 @@ use super::*;
 use crate::{
     base::{BaseSlot, EntryContext, RuleCheckSlot, StatNode, TokenResult},
     logging, stat, utils,
-    utils::AsAny,
 };
 #[cfg(not(sentinel_verif))]
 use lazy_static::lazy_static;
@@ -63,10 +62,9 @@ fn can_pass_check(
     let actual_node = {
         match tc.rule().relation_strategy {
             RelationStrategy::Associated => {
-                let node = stat::get_resource_node(&tc.rule().ref_resource).unwrap();
-                let node = node.as_any_arc();
-                let node = node.downcast_ref::<Arc<dyn StatNode>>().unwrap();
-                Some(node.clone())
+                // the node of the associated resource, if that resource has been seen at all
+                stat::get_resource_node(&tc.rule().ref_resource)
+                    .map(|node| node as Arc<dyn StatNode>)
             }
             _ => given_node,
         }
